@@ -74,27 +74,60 @@ func checkJSONConsumers(w *World, r *Result, rule string) int {
 			jsonPkg[fl.fn.Pkg.PkgPath]++
 		}
 		info := fl.pkg.TypesInfo
-		// 1. first statement is `if !f.Exported() { continue }`
-		first := false
-		for _, st := range fl.rs.Body.List {
-			if len(usesOf(info, st, fl.v, "$f")) == 0 {
-				continue // a statement that does not touch the field
+		// 1. every use of the field in the body is reached only for fields with Exported() -- the guard-first form
+		// `if !f.Exported() { continue }` and the nested form `if f.Exported() { … }` alike -- except the uses that make
+		// up the test itself
+		first := true
+		nuses := 0
+		ast.Inspect(fl.rs.Body, func(x ast.Node) bool {
+			id, ok := x.(*ast.Ident)
+			if !ok || objOf(info, id) != fl.v {
+				return true
 			}
-			// the first statement that mentions the field must be the guard (the test may be bound by the if's init)
-			if is, ok := st.(*ast.IfStmt); ok && is.Else == nil && terminates(is.Body) {
-				var cs []string
-				if is.Init != nil {
-					cs = condSetWithInit(info, is, fl.subst)
-				} else {
-					cs = condSet(info, splitCond(is.Cond, true), fl.subst)
+			nuses++
+			guarded := false
+			for _, c := range reachConds(info, fl.fn.Decl, fl.rs, id, fl.subst) {
+				if c == "$f.Exported()" {
+					guarded = true
 				}
-				first = len(cs) == 1 && cs[0] == "!($f.Exported())"
 			}
-			break
+			if guarded {
+				return true
+			}
+			// part of the test: the identifier is the receiver of an Exported() call that sits in a condition (or in
+			// the init of the if holding it)
+			inTest := false
+			ast.Inspect(fl.rs.Body, func(y ast.Node) bool {
+				is, ok := y.(*ast.IfStmt)
+				if !ok {
+					return true
+				}
+				for _, part := range []ast.Node{is.Cond, is.Init} {
+					if part == nil || !(part.Pos() <= id.Pos() && id.End() <= part.End()) {
+						continue
+					}
+					ast.Inspect(part, func(z ast.Node) bool {
+						if call, ok := z.(*ast.CallExpr); ok && call.Pos() <= id.Pos() && id.End() <= call.End() {
+							if fn := calleeOf(info, call); fn != nil && fn.Name() == "Exported" {
+								inTest = true
+							}
+						}
+						return true
+					})
+				}
+				return true
+			})
+			if !inTest {
+				first = false
+			}
+			return true
+		})
+		if nuses == 0 {
+			first = false
 		}
 		r.cond(first, rule, fl.fn.Name, cons+": guard first", pos,
-			"the first statement of the body that mentions the field is `if !f.Exported() { continue }`, which dominates every other use of the field: ignored fields contribute nothing",
-			"the body does not start with `if !f.Exported() { continue }`: an ignored field (unexported, json:\"-\", gomacro:\"ignore\") can reach the output or trigger generation of its type")
+			"every use of the field is reached only under f.Exported() (early `continue` or enclosing `if`): ignored fields contribute nothing",
+			"some use of the field is not dominated by the Exported() test: an ignored field (unexported, json:\"-\", gomacro:\"ignore\") can reach the output or trigger generation of its type")
 		// 1b. no decision is taken on the unfiltered field list: a comparison of len(<struct>.Fields) in a json
 		// consumer changes the output when an ignored field is added
 		ast.Inspect(fl.fn.Decl.Body, func(x ast.Node) bool {
